@@ -9,6 +9,9 @@ import (
 )
 
 func evaluateExpression(e *tree.Expression, retriever variable.Retriever, caller functionCaller) (*variable.Value, error) {
+	if e == nil {
+		return nil, fmt.Errorf("cannot evaluate a missing expression")
+	}
 	switch {
 	case e.VariableID != nil:
 		value, ok := retriever.GetValue(*e.VariableID)
@@ -39,7 +42,7 @@ func evaluateExpression(e *tree.Expression, retriever variable.Retriever, caller
 	case e.Operator != nil:
 		return evaluateBinaryOperation(*e.Operator, e.LeftOperand, e.RightOperand, retriever, caller)
 	}
-	return nil, nil
+	return nil, fmt.Errorf("cannot evaluate an expression that holds no value (null)")
 }
 
 func evaluateBinaryOperation(operator int, leftOperand, rightOperand *tree.Expression, retriever variable.Retriever, caller functionCaller) (*variable.Value, error) {
@@ -180,6 +183,8 @@ func evaluateFunctionCall(call *tree.FunctionCall, retriever variable.Retriever,
 	result, err := caller.call(call.FunctionID, evaluatedArgs)
 	if err != nil {
 		return nil, fmt.Errorf("call to function %s failed: %w", call.FunctionID, err)
+	} else if result == nil {
+		return nil, fmt.Errorf("function %s returns nothing and cannot be used as a value", call.FunctionID)
 	}
 	return result, nil
 }
